@@ -26,8 +26,10 @@ type detObs struct {
 	tornAt int
 	feed   string // first disagreement between the L1-head feed and the stored head
 	// mode C
-	fwdOut  []string  // per step: what the forwarding loop handed on ("" = step does not use it)
-	adapter []verdict // life-cycle problems of the forwarding loop
+	fwdOut     []string  // per step: what the forwarding loop handed on ("" = step does not use it)
+	adapter    []verdict // life-cycle problems of the forwarding loop
+	adjacent   int       // geth events delivered directly behind one another (no sentinel in between)
+	ownRemoval int
 }
 
 func runDet(cs *Case) *detObs {
@@ -57,7 +59,17 @@ func runDet(cs *Case) *detObs {
 		fo := ""
 		switch {
 		case cs.Fwd && (s.K == 'U' || s.K == 'R'):
-			outs, problem := sess.push(s.E.gethLog(s.K == 'R'))
+			var outs []*l1.StateUpdate
+			var problem string
+			if nextIsGeth := i+1 < len(cs.Steps) && (cs.Steps[i+1].K == 'U' || cs.Steps[i+1].K == 'R'); nextIsGeth && (i+int(cs.Chunk))%3 != 0 {
+				o.adjacent++
+				if n := cs.Steps[i+1]; s.K == 'U' && n.K == 'R' && n.E == s.E {
+					o.ownRemoval++
+				}
+				outs, problem = sess.pushAdjacent(s.E.gethLog(s.K == 'R'))
+			} else {
+				outs, problem = sess.push(s.E.gethLog(s.K == 'R'))
+			}
 			adapterProblem(i, "stuck", problem)
 			fo = fwdTexts(outs)
 			for _, u := range outs {
@@ -139,6 +151,8 @@ type evalRes struct {
 	commitMoved int // commits (T / successful C) that changed the stored head
 	outside     map[string]int
 	unconfirmed bool // node mode: verdicts of the first run did not reproduce
+	adjacent    int  // mode C: geth events delivered directly behind one another
+	ownRemoval  int  // mode C: a log directly followed by its own removal notice, delivered adjacently
 }
 
 func (r *evalRes) has(class string) *verdict {
@@ -212,7 +226,7 @@ func evalDetOnce(or *hx.Oracle, cs *Case) *evalRes {
 	} else {
 		o = runDet(cs)
 	}
-	res := &evalRes{heads: o.heads, outside: map[string]int{}}
+	res := &evalRes{heads: o.heads, outside: map[string]int{}, adjacent: o.adjacent, ownRemoval: o.ownRemoval}
 	res.line = cs.line(o.heads)
 	res.reply = or.Ask(res.line, 1)[0]
 	res.recs = parseReply(res.reply, len(cs.Steps))
